@@ -84,8 +84,9 @@ def targets (objs : List Obj) : List (String × String × List (String × IOS ×
       let l := first ++ alts
       if l.isEmpty then none else some (r.ns, "route:" ++ r.name, l)
     | .ing i =>
-      let l := (match i.default with | some b => [(b.svc, backendPort b, false)] | none => []) ++
-        i.rules.flatMap fun bs => bs.map fun b => (b.svc, backendPort b, false)
+      -- as coded, the targetPort comparison applies to Ingress backends too (known finding, DESIGN.md section 9)
+      let l := (match i.default with | some b => [(b.svc, backendPort b, true)] | none => []) ++
+        i.rules.flatMap fun bs => bs.map fun b => (b.svc, backendPort b, true)
       if l.isEmpty then none else some (i.ns, "ing:" ++ i.name, l)
     | _ => none
 
